@@ -2,4 +2,4 @@
 in lock-step with M1, judged by the oracles of harness/simengine/monitors.py)."""
 from ..e1 import E1Part
 
-PROP = E1Part("C04", [("contain",3),("mixed",1),("callback",1)], ["C04","C03","C01"], ["LokyModel.Props.C04"], quick=1200, thorough=40000, starve=0)
+PROP = E1Part("C04", [("contain",3),("mixed",1),("callback",1)], ["C04","C03","C01"], ["LokyModel.Props.C04", "LokyModel.Props.C05Live"], quick=1200, thorough=40000, starve=0)
